@@ -163,6 +163,9 @@ pub struct Program {
     /// execution left behind (counters, memories, scopes) is what the second one starts from
     #[serde(default)]
     pub resume: bool,
+    /// the optimum the problem reports as known (optimum-reached compares with it)
+    #[serde(default)]
+    pub optimum: f64,
 }
 
 /// The execute phase had begun (the caller can resume) and the run ended with an ordinary error.
@@ -674,6 +677,7 @@ pub struct Interp<'p> {
     scope_depth: usize,
     loop_depth: usize,
     total: u32,
+    optimum: f64,
 }
 
 type MRes<T> = Result<T, MErr>;
@@ -694,6 +698,7 @@ impl<'p> Interp<'p> {
             scope_depth: 0,
             loop_depth: 0,
             total: 0,
+            optimum: p.optimum,
         };
         for op in &p.pre_ops {
             it.model.apply(op);
@@ -1060,7 +1065,7 @@ impl<'p> Interp<'p> {
             }
             Cond::Optimum { eps, .. } => {
                 let v = match self.model.get(TAG_BEST) {
-                    Some(bits) if bits != NONE => f64::from_bits(bits) <= 0.0 + *eps,
+                    Some(bits) if bits != NONE => f64::from_bits(bits) <= self.optimum + *eps,
                     _ => false,
                 };
                 (v, None)
@@ -1103,6 +1108,13 @@ pub struct RealRun {
 }
 
 pub fn run_real(p: &Program, fault: Option<Fault>, snaps: bool, clone_config: bool) -> RealRun {
+    KNOWN_OPTIMUM.with(|o| o.set(p.optimum));
+    let r = run_real_inner(p, fault, snaps, clone_config);
+    KNOWN_OPTIMUM.with(|o| o.set(0.0));
+    r
+}
+
+fn run_real_inner(p: &Program, fault: Option<Fault>, snaps: bool, clone_config: bool) -> RealRun {
     let sh = Shared::new(fault, snaps);
     let mut state: St = State::new();
     state.insert(mahf::logging::Log::new());
